@@ -40,4 +40,5 @@ if __name__ == "__main__":
         print("HARNESS-ERROR", type(e).__name__, e)
         rc = 2
     sys.stdout.flush()
-    sys.exit(rc)
+    sys.stderr.flush()
+    os._exit(rc)  # no atexit hooks: nothing left behind by a library can delay the exit
